@@ -241,6 +241,47 @@ func runC16(r *Report) {
 			}, 0)
 			dom, _ := deferDominatesReturns(theDefer)
 			r.Check(under && dom, "R1", key, cc.Pos(), "the exit defer releases the count only when the peer was unchoked, and is registered before every return", "peer.Run's exit decrement of numUnchoking is not under amUnchoking != 0, or its defer does not dominate every return")
+			// … and on every path through the deferred function: no earlier return of that function (the event flush
+			// giving up when the torrent is gone, say) may skip the release while the flag is set
+			zeroEdge := func(cond ssa.Value, pol bool) bool {
+				m, nz := isAmLoadNonZero(cond)
+				return m && nz != pol
+			}
+			isRet := func(i ssa.Instruction) bool { _, ok := i.(*ssa.Return); return ok }
+			df := deferredFunc(theDefer)
+			cur := f
+			var via ssa.Instruction = cc
+			every := true
+			why := ""
+			for depth := 0; depth < 4; depth++ {
+				target := via
+				miss, reached := pathsMissingEntry(cur, isRet, nil, []edgeReq{{Name: "release", Match: zeroEdge, Instr: func(i ssa.Instruction) bool { return i == target }}})
+				if reached == 0 || len(miss) > 0 {
+					every = false
+					why = fmt.Sprintf("a path through %s returns without reaching it", fname(cur))
+					break
+				}
+				if cur == df {
+					break
+				}
+				calls, esc := p.callSitesOf(cur)
+				if len(esc) > 0 || len(calls) != 1 {
+					every = false
+					why = fmt.Sprintf("%s is not called from exactly one place", fname(cur))
+					break
+				}
+				ci, ok := calls[0].(ssa.Instruction)
+				if _, isDefer := calls[0].(*ssa.Defer); !ok || isDefer {
+					if calls[0].Parent() == run {
+						break // the helper is itself the deferred function
+					}
+					every = false
+					why = "the release is reached through a construct the rule does not follow"
+					break
+				}
+				via, cur = ci, ci.Parent()
+			}
+			r.Check(every, "R1", key+"/on-every-exit-path", cc.Pos(), "every path through the exit defer releases the count when the flag is set", "peer.Run's exit decrement of numUnchoking can be skipped while amUnchoking != 0 ("+why+"): the global count of unchoked peers stays too high for ever and starves the other peers of unchoke slots")
 		})
 	}
 	// ---------------- R2
@@ -409,8 +450,11 @@ func runC16(r *Report) {
 	}
 	r.Sentinel("R5", n5, 1)
 	// the short-read edge leads to reject and not to a Piece: C01.R7 (re-evaluated)
+	// … and the bytes served are copied out of a complete piece while the store's lock is held (C01.R2 re-evaluated):
+	// a copy made after the lock is released can return the contents of a buffer that eviction freed or reused
 	if c := newPieceCtx(r, "R2"); c.ok {
 		c.r7("R2")
+		c.r2("R2")
 	}
 	_ = types.Typ
 }
